@@ -32,11 +32,13 @@ input InC { c: InC  cs: [InC]  d: InD }
 input InD @oneOf { c: InC  d: InD  n: Int }
 input InTail { a: InA  cs: [InC!]  x: Int }
 input InTail2 { t: InTail!  d: InD }
+type Subscription { tick: Int  obj: Obj  face: Face }
+type Mutation { bump: Int  obj: Obj }
 "#;
 
 /// The tape-decoded adversarial grammar (also used by the libFuzzer target).
 pub fn gen_adversarial(t: &mut Tape, world_tape: &[u8], stats: &mut GenStats) -> Adv {
-    match t.weighted(&[30, 8, 8, 8, 8, 14, 10, 14]) {
+    match t.weighted(&[30, 8, 8, 8, 8, 14, 10, 14, 12, 10]) {
         0 => {
             // fragment-spread cycle of length 1..6
             let len = t.range(1, 6);
@@ -61,6 +63,13 @@ pub fn gen_adversarial(t: &mut Tape, world_tape: &[u8], stats: &mut GenStats) ->
                     let f = if pk == "object" { *t.pick(&["next", "nexts"]) } else { "face" };
                     let inner_tn = if f == "face" { "__typename " } else { "" };
                     let _ = write!(q, "{} {{ {}...F{} }} ", f, inner_tn, next);
+                } else if t.chance(30) {
+                    // the hop sits inside an inline fragment (same or no type condition)
+                    if t.chance(50) {
+                        let _ = write!(q, "... on {} {{ ...F{} }} ", on, next);
+                    } else {
+                        let _ = write!(q, "... {{ ...F{} }} ", next);
+                    }
                 } else {
                     let _ = write!(q, "...F{} ", next);
                 }
@@ -211,6 +220,97 @@ pub fn gen_adversarial(t: &mut Tape, world_tape: &[u8], stats: &mut GenStats) ->
                     Adv { kind: "json_missing_members", schema: v.to_string(), ext: "json", query: b.case.document.clone(), cycle: None, nontrivial: true }
                 }
                 None => Adv { kind: "json_missing_members", schema: "{}".into(), ext: "json", query: "query Q { a }".into(), cycle: None, nontrivial: true },
+            }
+        }
+        8 => {
+            // spread cycles on a root type: the operation's root selection itself goes through fragments
+            let (kw, root): (&str, &str) = match t.weighted(&[50, 25, 25]) {
+                0 => ("subscription", "Subscription"),
+                1 => ("query", "Query"),
+                _ => ("mutation", "Mutation"),
+            };
+            let len = t.range(1, 5);
+            let mut q = String::new();
+            for k in 0..len {
+                let next = (k + 1) % len;
+                let lead = match t.below(4) {
+                    0 => "__typename ",
+                    1 if root != "Query" => "obj { id } ",
+                    _ => "",
+                };
+                let hop = match t.below(4) {
+                    0 => format!("...R{}", next),
+                    1 => format!("... on {} {{ ...R{} }}", root, next),
+                    2 => format!("... {{ ...R{} }}", next),
+                    _ => format!("... on {} {{ ... on {} {{ ...R{} }} }}", root, root, next),
+                };
+                let _ = write!(q, "fragment R{} on {} {{ {}{} }}\n", k, root, lead, hop);
+            }
+            let entry = match t.below(3) {
+                0 => "...R0".to_string(),
+                1 => format!("... on {} {{ ...R0 }}", root),
+                _ => "... { ...R0 }".to_string(),
+            };
+            let _ = write!(q, "{} Q {{ {} }}\n", kw, entry);
+            Adv { kind: "root_spread_cycle", schema: BASE_SCHEMA.into(), ext: "graphql", query: q, cycle: None, nontrivial: true }
+        }
+        9 => {
+            // introspection JSON with malformed type references (wrappers that SDL cannot express)
+            let mut wt = Tape::new(world_tape);
+            let cfg = CaseCfg::default();
+            match build_base(&mut wt, &cfg, stats) {
+                Some(b) => {
+                    let mut v = b.world.schema.to_introspection_json(&JsonStyle::default());
+                    fn refs<'a>(v: &'a mut Value, out: &mut Vec<&'a mut Value>) {
+                        match v {
+                            Value::Object(m) => {
+                                for (k, x) in m.iter_mut() {
+                                    if k == "type" && x.get("kind").is_some() {
+                                        out.push(x);
+                                    } else {
+                                        refs(x, out);
+                                    }
+                                }
+                            }
+                            Value::Array(a) => {
+                                for x in a.iter_mut() {
+                                    refs(x, out);
+                                }
+                            }
+                            _ => {}
+                        }
+                    }
+                    let mut all = Vec::new();
+                    refs(&mut v, &mut all);
+                    let edits = t.range(1, 3);
+                    for _ in 0..edits {
+                        if all.is_empty() {
+                            break;
+                        }
+                        let i = t.below(all.len());
+                        let old = all[i].take();
+                        let wrap = |k: &str, inner: Value| json!({"kind": k, "name": null, "ofType": inner});
+                        *all[i] = match t.below(8) {
+                            0 => wrap("NON_NULL", wrap("NON_NULL", old)),
+                            1 => wrap("LIST", wrap("NON_NULL", wrap("NON_NULL", old))),
+                            2 => wrap("NON_NULL", Value::Null),
+                            3 => wrap("LIST", Value::Null),
+                            4 => {
+                                let mut x = old;
+                                for _ in 0..t.range(8, 40) {
+                                    x = wrap(if t.chance(50) { "LIST" } else { "NON_NULL" }, x);
+                                }
+                                x
+                            }
+                            5 => json!({"kind": "SCALAR", "name": null, "ofType": null}),
+                            6 => json!({"kind": "NONSENSE", "name": "Int", "ofType": old}),
+                            _ => json!({"kind": "OBJECT", "name": "Int", "ofType": wrap("NON_NULL", old)}),
+                        };
+                    }
+                    drop(all);
+                    Adv { kind: "json_malformed_type_ref", schema: v.to_string(), ext: "json", query: b.case.document.clone(), cycle: None, nontrivial: true }
+                }
+                None => Adv { kind: "json_malformed_type_ref", schema: "{}".into(), ext: "json", query: "query Q { a }".into(), cycle: None, nontrivial: true },
             }
         }
         _ => {
